@@ -832,6 +832,33 @@ Theorem selection_destroyed_loaded_dictionary_refuted :
 Proof. exact selection_destroyed_loaded_dictionary_refuted_l. Qed.
 Print Assumptions selection_destroyed_loaded_dictionary_refuted.
 
+(* ---- a single-use dictionary is used up by the frame start that succeeds, not by one that fails (fix b15fdb6) ---- *)
+Theorem fx_single_use_rule : forall d k, fx_fmt_ok d k = true -> dd_uses (dd_fx_pre false d (fx_fid k)) = 1 ->
+  let pre := dd_fx_pre false d (fx_fid k) in
+  (fx_starts d k = false -> d_dict (dctx_fx d k) = pre)
+  /\ (fx_starts d k = true -> d_dict (dctx_fx d k) = mkDD 0 (dd_kind pre) (dd_set pre) (dd_last pre))
+  /\ d_stage (dctx_fx d k) = S_init.
+Proof. exact fx_single_use_rule_l. Qed.
+Print Assumptions fx_single_use_rule.
+
+Theorem oneshot_single_use_rule : forall d fs, dd_uses (d_dict d) = 1 -> not_ref (d_dict d) ->
+  let r := dctx_dec_oneshot d fs in
+  (snd r = Ok -> dd_uses (d_dict (fst r)) = 0)
+  /\ (snd r <> Ok -> dd_uses (d_dict (fst r)) = 1)
+  /\ dd_kind (d_dict (fst r)) = dd_kind (d_dict d) /\ dd_set (d_dict (fst r)) = dd_set (d_dict d) /\ d_stage (fst r) = S_init.
+Proof. exact oneshot_single_use_rule_l. Qed.
+Print Assumptions oneshot_single_use_rule.
+
+Theorem stream_single_use_rule : forall d f, d_format d = 0 -> dd_uses (dd_fx_pre false d (frame_fid f)) = 1 ->
+  let pre := dd_fx_pre false d (frame_fid f) in
+  let r := dctx_dec_stream d f in
+  (snd r = Ok <-> dkind_matches (dd_kind pre) f = true)
+  /\ (snd r = Ok -> d_dict (fst r) = mkDD 0 (dd_kind pre) (dd_set pre) (dd_last pre))
+  /\ (snd r <> Ok -> d_dict (fst r) = pre)
+  /\ d_stage (fst r) = S_init.
+Proof. exact stream_single_use_rule_l. Qed.
+Print Assumptions stream_single_use_rule.
+
 (* ---- the deprecated stream initialisers (InitModel.v): ZSTD_initCStream* / ZSTD_resetCStream ---- *)
 Theorem init_chain_leaves_init_stage : forall w o y l, init_chain o y = Some l ->
   fst (ystep w y) = fst (xseq w (reset_session o :: l)) /\ c_stage (xget_c (fst (ystep w y)) o) = S_init.
@@ -878,3 +905,18 @@ Theorem init_advanced_vs_documented_setParams : forall c cp fp, c_stage c = S_in
   /\ store_zstd_params (c_params c) cp fp C_compressionLevel = 0.
 Proof. exact store_vs_setparams_l. Qed.
 Print Assumptions init_advanced_vs_documented_setParams.
+
+Theorem reset_cstream_exact : forall w o pss,
+  let c := xget_c w o in
+  vw (fst (ystep w (YResetCS o pss))) o = (mkC (c_params c) S_init (c_dict c) (c_static c), u64 (pss0 pss + 1))
+  /\ fst (snd (ystep w (YResetCS o pss))) = Ok.
+Proof. exact reset_cstream_exact_l. Qed.
+Print Assumptions reset_cstream_exact.
+
+Theorem init_cdict_advanced_exact : forall w o k fp pss,
+  let c := xget_c w o in
+  vw (fst (ystep w (YInitCDictAdv o k fp pss))) o
+    = (mkC (store_fparams (c_params c) fp) S_init (if k =? 0 then CD_none else CD_cdict) (c_static c), u64 (pss + 1))
+  /\ fst (snd (ystep w (YInitCDictAdv o k fp pss))) = Ok.
+Proof. exact init_cdict_advanced_exact_l. Qed.
+Print Assumptions init_cdict_advanced_exact.
